@@ -41,10 +41,34 @@ CFG = dict(
     checker="check_case",
     harness_dirs=["C19", "C38"],
     n=dict(quick=200, thorough=6000),
-    shard=60,
-    rule="TODO",
-    trusted=["Coq 8.16.1 kernel + vm_compute"],
-    assumptions=[],
+    shard=50,
+    rule="each case = a fresh in-memory datastore (C19 membackend) with an IPv4 pool (2-16 addresses, or none) and an IPv6 pool "
+         "(2-8 addresses, or none), 1-3 containers (Kubernetes identifiers ns/pod + sandbox id, possibly sharing a pod, or plain CNI "
+         "container ids), optional pre-existing allocations under a legacy (v2.x) handle, the primary handle or an unrelated handle, "
+         "upgrade marker file present or not, then 3-8 invocations of the tree's cmdAdd/cmdDel (AutoAssign for v4 / v6 / both / none, or a "
+         "requested address IP=..., in or outside the pool, free or taken) run against the REAL libcalico-go IPAM client behind a failure "
+         "injector (per IPAM call, probability 0/10/25/45%: fail before the call, fail after its effect, AutoAssign returns the first family "
+         "and an error, a family comes back empty without error, ReleaseByHandle releases part and fails, the k-th datastore access of the "
+         "call fails; error values: plain, context deadline exceeded, datastore error); natural exhaustion and missing pools also occur. "
+         "Recorded: every IPAM call (arguments, lock held, answer, effect = table difference), result, marker, allocation table after each "
+         "invocation.  Non-trivial = a successful delete after an add that allocated something, with at least one injected fault, a "
+         "roll-back release or a naturally short family.  Distinct by (initial table, operations, calls, answers).",
+    trusted=["Coq 8.16.1 kernel + vm_compute",
+             "hand-written model coq/theories/C38/Model.v (plugin programs over an abstract IPAM with an explicit contract `admissible`) tied "
+             "to cni-plugin/pkg/ipamplugin by this correspondence run",
+             "seam: harness/C38/gen/gen.go re-emits cmdAdd/cmdDel from the tree's current ipam_plugin.go as verifCmdAdd/verifCmdDel with the "
+             "single call utils.CreateClient(conf) redirected to the injected client (the tree has no injection point; nothing else is copied)",
+             "real ipam client (libcalico-go/lib/ipam) + in-memory CAS backend harness/C19/cmd/membackend + failure injector in harness/C38/cmd/main.go",
+             "Go driver harness/C38 (overlay build, tag verif)"],
+    assumptions=["IPAM contract (Model.admissible): a call only adds fresh addresses, AutoAssign/AssignIP only under the handle passed, AutoAssign "
+                 "without error returns exactly what it allocated (nil assignment iff nothing requested, at most the requested count), "
+                 "ReleaseIPs/ReleaseByHandle only remove what they were asked to and remove all of it when they report success, "
+                 "ReleaseByHandle answers 'not found' only when the handle holds nothing (C19: handle records never under-count); checked on every "
+                 "recorded call of the real IPAM client",
+                 "KubeVirt / VM address persistence paths (virt-launcher-* pods), namespaceSelector lookup (needs a Kubernetes API server), Windows "
+                 "reserved attributes and named-pool resolution are outside the model and the generator",
+                 "lost-reply datastore faults are not injected (a write that is applied but reported failed is outside the IPAM contract above)",
+                 "container ids / pod names are CNI-valid (no carriage return: ipam sanitizeHandle is the identity)"],
 )
 
 
@@ -54,6 +78,14 @@ def run(ctx):
 
 MANIFEST = dict(
     category="proof",
-    text="TODO",
-    note="TODO",
+    text="Theorems over an executable model of the calico-ipam CNI plugin's ADD and DEL as programs over an abstract IPAM (handle -> "
+         "addresses; every call's answer and effect chosen by the environment within an explicit contract, so any call may fail before or "
+         "after its effect and AutoAssign may return fewer addresses): for all histories and all fault patterns a successful final delete "
+         "leaves nothing under the container's handles, deletes are idempotent and harmless, a successful add holds an address of every "
+         "requested family under the primary handle, the dual-stack half-success path releases the other family (and what remains after any "
+         "failed add is under the primary handle).  Correspondence: the tree's cmdAdd/cmdDel run against the real IPAM client over an "
+         "in-memory datastore with failure injection; calls, results and the allocation table after every invocation are compared with the "
+         "model and judged by the spec oracle inside Coq.",
+    note="Trusted: Coq kernel; hand model tied to the code by the correspondence run; the generated seam (CreateClient redirected); the IPAM "
+         "contract (checked on every recorded call). KubeVirt persistence paths are not modelled.",
 )
